@@ -5,7 +5,7 @@
 From Coq Require Import Lia.
 From ChitchatModel Require Import Base SMap Ids Bytes Params NodeState Stream DeltaWire Message Cluster
   FD Chitchat SMap_lemmas NodeState_lemmas Builder_lemmas Stream_lemmas Cluster_lemmas Chitchat_lemmas
-  Agreement Inv DeltaRefine Compute_lemmas NodeInv.
+  Agreement Inv DeltaRefine Compute_lemmas NodeInv GuardsGen GuardTie.
 
 (* whatever the bytes and whatever the decompressor answers, a message that decodes carries only
    grammar-valid deltas: ascending key-value versions, max_version not below them *)
@@ -82,3 +82,13 @@ Proof.
   split; [exact gc_keys_inv|exact update_nodes_liveness_inv].
 Qed.
 Print Assumptions C09_node_invariant_is_inductive.
+
+(* ---- the tie of the decision guards to the sources (GuardTie.v; see C14.v for the scheme) ---- *)
+(* which key-values of a (possibly hostile) delta are skipped before set_versioned_value *)
+Theorem C09_delta_filter_guards_are_the_source_guards :
+  ((forall ver cmax cgc, rs_apply_known ver cmax cgc = g_apply_known ver cmax) \/
+   (forall ver cmax cgc, rs_apply_known ver cmax cgc = negb (g_apply_known ver cmax))) /\
+  ((forall ver cmax cgc, rs_apply_collected ver cmax cgc = g_apply_collected ver cgc) \/
+   (forall ver cmax cgc, rs_apply_collected ver cmax cgc = negb (g_apply_collected ver cgc))).
+Proof. exact (conj tie_apply_known tie_apply_collected). Qed.
+Print Assumptions C09_delta_filter_guards_are_the_source_guards.
